@@ -392,6 +392,18 @@ func (b *BaseStore) isOwnEntry(e ipfslog.Entry) bool {
 	return e != nil && e.Defined() && e.GetLogID() == b.id
 }
 
+// holdsOnlyOwnEntries tells whether every entry of a fetched log names this
+// store's log id.
+func (b *BaseStore) holdsOnlyOwnEntries(log ipfslog.Log) bool {
+	for _, e := range log.GetEntries().Slice() {
+		if e.GetLogID() != b.id {
+			return false
+		}
+	}
+
+	return true
+}
+
 func (b *BaseStore) isClosed() bool {
 	select {
 	case <-b.ctx.Done():
@@ -1043,6 +1055,14 @@ func (b *BaseStore) replicationLoadComplete(ctx context.Context, logs []ipfslog.
 	b.Logger().Debug("replication load complete")
 	entries := []ipfslog.Entry{}
 	for _, log := range logs {
+		// an entry written for another database is not ours to merge; handing its
+		// log to Join would still let it take part in the recomputation of the
+		// heads, where it can push a valid entry it links to out of the head set
+		if !b.holdsOnlyOwnEntries(log) {
+			b.Logger().Debug("warning: fetched entries of another database were discarded")
+			continue
+		}
+
 		_, err := oplog.Join(log, -1)
 		verifhook.At("join.log", b, log, err)
 		if err != nil {
